@@ -111,6 +111,30 @@ def run_bounded(chk):
                                   {"vertices": [[x, y, 0.0] for x, y in Pf], "point": Q[i].tolist(), "expected_inside": bool(want[i]),
                                    "is_inside": bool(got[i]) if got.shape == want.shape else None, "n_wrong": int(len(bad)),
                                    "distance_from_boundary_at_least": 0.01 * ext}))
+    # the same object, asked other things in between: every ordered pair of queries on a fresh polygon that is neither centred
+    # nor in the xy plane, against the query alone; and read - move / resize - read against a fresh construction
+    from . import stale
+    import numpy as _np
+    th = 0.6
+    Rx = _np.array([[1.0, 0, 0], [0, _np.cos(th), -_np.sin(th)], [0, _np.sin(th), _np.cos(th)]])
+    for pname in ("L", "arrow"):
+        if pname not in polys:
+            continue
+        P2 = _np.array([[float(x), float(y), 0.0] for x, y in polys[pname]])
+        for cls in ("Polygon",):
+            for tag, V in (("offset", P2 + _np.array([3.0, -2.0, 0.0])), ("tilted+offset", P2 @ Rx.T + _np.array([3.0, -2.0, 1.5])), ("cw", P2[::-1] + _np.array([3.0, -2.0, 0.0]))):
+                c = V.mean(axis=0)
+                probes = _np.array([c + l_ * (V[i] - c) for i in range(len(V)) for l_ in (0.3, 0.9, 1.2, 1.8)])
+                getters = {"is_inside": lambda s, probes=probes: _np.array(s.is_inside(probes)),
+                           "inertia_tensor": lambda s: _np.array(s.inertia_tensor, float),
+                           "planar_moments": lambda s: _np.array(s.planar_moments_inertia, float),
+                           "centroid": lambda s: _np.array(s.centroid, float), "signed_area": lambda s: s.signed_area,
+                           "bounding_circle": lambda s: _np.array(s.minimal_bounding_circle.radius),
+                           "form_factor": lambda s: _np.array(s.compute_form_factor_amplitude(_np.array([[0.3, -0.2, 0.5]])))}
+                n_eval += stale.read_pairs(lambda V=V, cls=cls: getattr(cox.shapes, cls)(V), getters, f"queries_in_pairs:{pname}/{cls}/{tag}", fails)
+                n_eval += stale.read_mutate_read(getattr(cox.shapes, cls)(V), lambda s: {"is_inside": _np.array(s.is_inside(
+                    _np.array([s.vertices.mean(axis=0) + l_ * (s.vertices[i] - s.vertices.mean(axis=0)) for i in range(len(s.vertices)) for l_ in (0.3, 0.9, 1.2, 1.8)])))},
+                    f"history:{pname}/{cls}/{tag}", fails)
     for name, info in fails[:5]:
         chk.record(f"bounded:is_inside_2d[{name}]", fkey, "bounded-fail", "exact-membership", detail=str(info)[:500], model={},
                    kind="bounded", replay=lambda m, info=info, name=name: (True, {"case": name, **info}))
